@@ -100,7 +100,7 @@ def cols : Op R → Nat
 end
 
 /-- the dtype the constructor computes (operators.py: `reduce(promote_types, …)` for Product,
-Kronecker, KronSum, BlockDiag; first member for Concatenated; parent for wrappers) -/
+Kronecker, KronSum, BlockDiag, Sum, Concatenated; parent for wrappers) -/
 def dtype : Op R → DType
   | dense dt _ _ _ => dt
   | tri dt _ _ _ _ => dt
@@ -118,7 +118,7 @@ def dtype : Op R → DType
   | adjoint A => A.dtype
   | sliced A _ _ => A.dtype
   | perm dt _ => dt
-  | concat _ Ms => (Ms.map (·.dtype)).head?.getD .f32
+  | concat _ Ms => (Ms.map (·.dtype)).foldl DType.promote .f32
   | house dt _ _ _ => dt
   | generic A => A.dtype
   | annot _ A => A.dtype
@@ -127,11 +127,11 @@ variable [CommRing R] [StarRing R]
 
 /-- the represented matrix (a `MatV`; `forceV` is the identity, see `forceV_f`) -/
 def den : Op R → MatV R
-  | dense _ _ _ a => ⟨a⟩
-  | tri _ _ _ _ a => ⟨a⟩
+  | dense _ _ _ a => MatV.of (a)
+  | tri _ _ _ _ a => MatV.of (a)
   | sparse _ r c ents => forceV r c (sparseDen ents)
-  | scalar _ s _ => ⟨fun i j => if i = j then s else 0⟩
-  | eye _ _ => ⟨eyeM⟩
+  | scalar _ s _ => MatV.of (fun i j => if i = j then s else 0)
+  | eye _ _ => MatV.of (eyeM)
   | prod Ms =>
       forceV ((Ms.map (·.rows)).head?.getD 0) ((Ms.map (·.cols)).getLast?.getD 0)
         ((Ms.map (fun M => (M.cols, M.den.f))).foldr (fun p acc => mmul p.1 p.2 acc) eyeM)
@@ -147,17 +147,17 @@ def den : Op R → MatV R
   | bdiag Ms mults =>
       forceV (dotSum (Ms.map (·.rows)) mults) (dotSum (Ms.map (·.cols)) mults)
         (bdiagDen ((Ms.map (fun M => (⟨M.rows, M.cols, M.den.f, fun _ m => m⟩ : FacAct R))).zip mults))
-  | diag _ _ d => ⟨diagM d⟩
-  | tridiag _ _ al be ga => ⟨tridiagDen al be ga⟩
-  | transpose A => ⟨transposeM A.den.f⟩
-  | adjoint A => ⟨conjM (transposeM A.den.f)⟩
+  | diag _ _ d => MatV.of (diagM d)
+  | tridiag _ _ al be ga => MatV.of (tridiagDen al be ga)
+  | transpose A => MatV.of (transposeM A.den.f)
+  | adjoint A => MatV.of (conjM (transposeM A.den.f))
   | sliced A s0 s1 =>
-      ⟨slicedDen A.den.f ((Ix.resolve A.rows s0).getD []) ((Ix.resolve A.cols s1).getD [])⟩
-  | perm _ p => ⟨permDen p⟩
+      MatV.of (slicedDen A.den.f ((Ix.resolve A.rows s0).getD []) ((Ix.resolve A.cols s1).getD []))
+  | perm _ p => MatV.of (permDen p)
   | concat ax Ms =>
-      if ax then ⟨hstack (Ms.map (fun M => (M.cols, M.den.f)))⟩
-      else ⟨vstack (Ms.map (fun M => (M.rows, M.den.f)))⟩
-  | house _ _ v beta => ⟨houseDen v beta⟩
+      if ax then MatV.of (hstack (Ms.map (fun M => (M.cols, M.den.f))))
+      else MatV.of (vstack (Ms.map (fun M => (M.rows, M.den.f))))
+  | house _ _ v beta => MatV.of (houseDen v beta)
   | generic A => A.den
   | annot _ A => A.den
 
